@@ -372,11 +372,27 @@ impl Group {
             ));
         }
 
-        let target = if let Some(sig_rr) = self.sig_set.first() {
-            sig_rr.data().signer_name()
-        } else {
-            self.rr_set[0].owner()
+        // Only a signature whose signer name is the owner name or one of its
+        // ancestors can come from the zone that contains the RRset (RFC
+        // 4035, Section 5.3.1). Any other signer name is not a statement
+        // about that zone: taking it at its word would let an RRSIG that
+        // names some unsigned zone turn data of a signed zone into
+        // "insecure". Without a usable signature, the status follows from
+        // where the owner name sits; a DS RRset sits in the parent zone.
+        let owner = self.rr_set[0].owner();
+        let target = match self
+            .sig_set
+            .iter()
+            .map(|sig_rr| sig_rr.data().signer_name())
+            .find(|signer_name| owner.ends_with(signer_name))
+        {
+            Some(signer_name) => signer_name.clone(),
+            None if self.rtype() == Rtype::DS => {
+                owner.parent().unwrap_or_else(|| owner.clone())
+            }
+            None => owner.clone(),
         };
+        let target = &target;
         let node = vc.get_node(target).await?;
         let state = node.validation_state();
         match state {
